@@ -9,7 +9,8 @@
    Fault on the empty list, so "never reads outside the given range" is the theorem
    "result <> Fault". Recursion is on fuel; OutOfFuel is a separate result excluded by theorem. *)
 From Coq Require Import List NArith ZArith Bool.
-From LTV Require Import Common.Bytes Params_gen.
+From LTV Require Import Common.Bytes.
+From LTV.C07 Require Import ParamsGen.
 Import ListNotations.
 Local Open Scope N_scope.
 
@@ -156,7 +157,10 @@ Definition c_string (l : bytes) : res bytes :=
 
 Definition depth_limit_c := Params.bencode_c_depth_limit.
 
-(* object_read_bencode_c. Returns (value, unordered flag). *)
+(* object_read_bencode_c. Returns (value, unordered flag). The two while-loops are the mutually
+   recursive items_c / entries_c. *)
+Definition map_is_empty (m : list (bytes * value)) : bool := match m with [] => true | _ => false end.
+
 Fixpoint dec_c (fuel : nat) (depth : N) (l : bytes) {struct fuel} : res (value * bool) :=
   match fuel with
   | O => OutOfFuel
@@ -170,44 +174,9 @@ Fixpoint dec_c (fuel : nat) (depth : N) (l : bytes) {struct fuel} : res (value *
             | _ => Reject
             end
           else if c =? ch_l then
-            if depth_limit_c <=? depth + 1 then Reject
-            else
-              (fix items (g : nat) (l : bytes) (acc : list value) (fl : bool) {struct g} : res (value * bool) :=
-                 match g with
-                 | O => OutOfFuel
-                 | S g' =>
-                     match l with
-                     | [] => Reject
-                     | c :: l' =>
-                         if c =? ch_e then Ok (VList (rev acc), fl) l'
-                         else match dec_c f (depth + 1) l with
-                              | Ok (v, uf) rest => items g' rest (v :: acc) (fl || uf)
-                              | Reject => Reject | Fault => Fault | OutOfFuel => OutOfFuel
-                              end
-                     end
-                 end) f l' [] false
+            if depth_limit_c <=? depth + 1 then Reject else items_c f (depth + 1) l' [] false
           else if c =? ch_d then
-            if depth_limit_c <=? depth + 1 then Reject
-            else
-              (fix entries (g : nat) (l : bytes) (m : list (bytes * value)) (prev : bytes) (fl : bool) {struct g} : res (value * bool) :=
-                 match g with
-                 | O => OutOfFuel
-                 | S g' =>
-                     match l with
-                     | [] => Reject
-                     | c :: l' =>
-                         if c =? ch_e then Ok (VMap m, fl) l'
-                         else match c_string l with
-                              | Ok k rest =>
-                                  let fl1 := fl || (bytes_leb k prev && negb (match m with [] => true | _ => false end)) in
-                                  match dec_c f (depth + 1) rest with
-                                  | Ok (v, uf) rest' => entries g' rest' (map_insert k v m) k (fl1 || uf)
-                                  | Reject => Reject | Fault => Fault | OutOfFuel => OutOfFuel
-                                  end
-                              | Reject => Reject | Fault => Fault | OutOfFuel => OutOfFuel
-                              end
-                     end
-                 end) f l' [] [] false
+            if depth_limit_c <=? depth + 1 then Reject else entries_c f (depth + 1) l' [] [] false
           else if is_digit c then
             match c_string l with
             | Ok s rest => Ok (VStr s, false) rest
@@ -215,9 +184,42 @@ Fixpoint dec_c (fuel : nat) (depth : N) (l : bytes) {struct fuel} : res (value *
             end
           else Reject
       end
+  end
+with items_c (fuel : nat) (depth : N) (l : bytes) (acc : list value) (fl : bool) {struct fuel} : res (value * bool) :=
+  match fuel with
+  | O => OutOfFuel
+  | S f =>
+      match l with
+      | [] => Reject
+      | c :: l' =>
+          if c =? ch_e then Ok (VList (rev acc), fl) l'
+          else match dec_c f depth l with
+               | Ok (v, uf) rest => items_c f depth rest (v :: acc) (fl || uf)
+               | Reject => Reject | Fault => Fault | OutOfFuel => OutOfFuel
+               end
+      end
+  end
+with entries_c (fuel : nat) (depth : N) (l : bytes) (m : list (bytes * value)) (prev : bytes) (fl : bool) {struct fuel} : res (value * bool) :=
+  match fuel with
+  | O => OutOfFuel
+  | S f =>
+      match l with
+      | [] => Reject
+      | c :: l' =>
+          if c =? ch_e then Ok (VMap m, fl) l'
+          else match c_string l with
+               | Ok k rest =>
+                   let fl1 := fl || (bytes_leb k prev && negb (map_is_empty m)) in
+                   match dec_c f depth rest with
+                   | Ok (v, uf) rest' => entries_c f depth rest' (map_insert k v m) k (fl1 || uf)
+                   | Reject => Reject | Fault => Fault | OutOfFuel => OutOfFuel
+                   end
+               | Reject => Reject | Fault => Fault | OutOfFuel => OutOfFuel
+               end
+      end
   end.
 
-Definition decode_c (l : bytes) : res (value * bool) := dec_c (S (length l)) 0 l.
+Definition decode_c (l : bytes) : res (value * bool) := dec_c (2 * length l + 2) 0 l.
 
 (* ---------------------------------------------------------------- skip reader
    object_read_bencode_skip_c: explicit stack of "is dictionary" marks; stack[0] = false. *)
@@ -355,7 +357,6 @@ Definition stream_string (l : bytes) : option (bytes * bytes) :=
 
 Definition depth_limit_stream := Params.bencode_stream_depth_limit.
 
-(* None = failbit (object cleared). *)
 Fixpoint dec_s (fuel : nat) (depth : N) (l : bytes) {struct fuel} : res (value * bool) :=
   match fuel with
   | O => OutOfFuel
@@ -369,44 +370,9 @@ Fixpoint dec_s (fuel : nat) (depth : N) (l : bytes) {struct fuel} : res (value *
             | _ => Reject
             end
           else if c =? ch_l then
-            if depth_limit_stream <=? depth + 1 then Reject
-            else
-              (fix items (g : nat) (l : bytes) (acc : list value) (fl : bool) {struct g} : res (value * bool) :=
-                 match g with
-                 | O => OutOfFuel
-                 | S g' =>
-                     match l with
-                     | [] => Reject
-                     | c :: l' =>
-                         if c =? ch_e then Ok (VList (rev acc), fl) l'
-                         else match dec_s f (depth + 1) l with
-                              | Ok (v, uf) rest => items g' rest (v :: acc) (fl || uf)
-                              | Reject => Reject | Fault => Fault | OutOfFuel => OutOfFuel
-                              end
-                     end
-                 end) f l' [] false
+            if depth_limit_stream <=? depth + 1 then Reject else items_s f (depth + 1) l' [] false
           else if c =? ch_d then
-            if depth_limit_stream <=? depth + 1 then Reject
-            else
-              (fix entries (g : nat) (l : bytes) (m : list (bytes * value)) (prev : bytes) (fl : bool) {struct g} : res (value * bool) :=
-                 match g with
-                 | O => OutOfFuel
-                 | S g' =>
-                     match l with
-                     | [] => Reject
-                     | c :: l' =>
-                         if c =? ch_e then Ok (VMap m, fl) l'
-                         else match stream_string l with
-                              | Some (k, rest) =>
-                                  let fl1 := fl || (bytes_leb k prev && negb (match m with [] => true | _ => false end)) in
-                                  match dec_s f (depth + 1) rest with
-                                  | Ok (v, uf) rest' => entries g' rest' (map_insert k v m) k (fl1 || uf)
-                                  | Reject => Reject | Fault => Fault | OutOfFuel => OutOfFuel
-                                  end
-                              | None => Reject
-                              end
-                     end
-                 end) f l' [] [] false
+            if depth_limit_stream <=? depth + 1 then Reject else entries_s f (depth + 1) l' [] [] false
           else if is_digit c then
             match stream_string l with
             | Some (s, rest) => Ok (VStr s, false) rest
@@ -414,9 +380,42 @@ Fixpoint dec_s (fuel : nat) (depth : N) (l : bytes) {struct fuel} : res (value *
             end
           else Reject
       end
+  end
+with items_s (fuel : nat) (depth : N) (l : bytes) (acc : list value) (fl : bool) {struct fuel} : res (value * bool) :=
+  match fuel with
+  | O => OutOfFuel
+  | S f =>
+      match l with
+      | [] => Reject
+      | c :: l' =>
+          if c =? ch_e then Ok (VList (rev acc), fl) l'
+          else match dec_s f depth l with
+               | Ok (v, uf) rest => items_s f depth rest (v :: acc) (fl || uf)
+               | Reject => Reject | Fault => Fault | OutOfFuel => OutOfFuel
+               end
+      end
+  end
+with entries_s (fuel : nat) (depth : N) (l : bytes) (m : list (bytes * value)) (prev : bytes) (fl : bool) {struct fuel} : res (value * bool) :=
+  match fuel with
+  | O => OutOfFuel
+  | S f =>
+      match l with
+      | [] => Reject
+      | c :: l' =>
+          if c =? ch_e then Ok (VMap m, fl) l'
+          else match stream_string l with
+               | Some (k, rest) =>
+                   let fl1 := fl || (bytes_leb k prev && negb (map_is_empty m)) in
+                   match dec_s f depth rest with
+                   | Ok (v, uf) rest' => entries_s f depth rest' (map_insert k v m) k (fl1 || uf)
+                   | Reject => Reject | Fault => Fault | OutOfFuel => OutOfFuel
+                   end
+               | None => Reject
+               end
+      end
   end.
 
-Definition decode_stream (l : bytes) : res (value * bool) := dec_s (S (length l)) 0 l.
+Definition decode_stream (l : bytes) : res (value * bool) := dec_s (2 * length l + 2) 0 l.
 
 (* ---------------------------------------------------------------- raw reader
    object_read_bencode_raw_c + raw_bencode::{is_raw_string,is_raw_list,is_raw_map,as_*}.
